@@ -68,17 +68,34 @@ impl Task {
         // Block until granted again. A cancel at a synchronous point cannot unwind: treat as Go.
         let _ = hook_rx.recv();
       })));
-      let mut fut = make();
+      // `fibre 0.5.13`'s async mpmc leaves a dangling waiter behind when a parked `recv()` is polled again and
+      // takes an item that another waiter was woken for (known finding C09:fibre-mpmc-dangling-waiter): a later
+      // send then reads the freed future. To keep the lock-step runs deterministic the scheduler therefore runs
+      // the futures' destructors but never returns their memory, unless VERIF_FREE_FUTURES=1 (used by the
+      // known-finding witness, under valgrind).
+      let free_futures = std::env::var("VERIF_FREE_FUTURES").map(|v| v == "1").unwrap_or(false);
+      let mut fut = std::mem::ManuallyDrop::new(make());
+      let release = |f: &mut std::mem::ManuallyDrop<BoxFut>| unsafe {
+        if free_futures {
+          std::mem::ManuallyDrop::drop(f);
+        } else {
+          let inner: BoxFut = std::mem::ManuallyDrop::take(f);
+          let raw: *mut (dyn Future<Output = String> + Send) = Box::into_raw(Pin::into_inner_unchecked(inner));
+          std::ptr::drop_in_place(raw); // destructors run (reservation roll-backs, waiter removal), memory is kept
+        }
+      };
       let waker = noop_waker();
       let mut cx = Context::from_waker(&waker);
       loop {
         let polled = std::panic::catch_unwind(std::panic::AssertUnwindSafe(|| fut.as_mut().poll(&mut cx)));
         match polled {
           Err(_) => {
+            std::mem::forget(std::mem::replace(&mut fut, std::mem::ManuallyDrop::new(Box::pin(async { String::new() }))));
             let _ = rep_tx.send(Report::Done("PANIC".into()));
             break;
           }
           Ok(Poll::Ready(r)) => {
+            release(&mut fut);
             let _ = rep_tx.send(Report::Done(r));
             break;
           }
@@ -87,7 +104,7 @@ impl Task {
             match cmd_rx.recv() {
               Ok(Cmd::Go) => continue,
               Ok(Cmd::Cancel) | Err(_) => {
-                drop(fut);
+                release(&mut fut);
                 let _ = rep_tx.send(Report::Done("cancelled".into()));
                 break;
               }
